@@ -60,6 +60,7 @@ func (g *Gen) buildDag(depth int) *dag {
 		level = append(level, l)
 		d.all = append(d.all, l.(cidlink.Link).Cid)
 	}
+	var older []datamodel.Link
 	for lv := 0; lv < depth; lv++ {
 		var next []datamodel.Link
 		width := 1 + g.pick(3)
@@ -69,7 +70,13 @@ func (g *Gen) buildDag(depth int) *dag {
 		for i := 0; i < width; i++ {
 			kids := []datamodel.Link{}
 			for k := 0; k < 1+g.pick(4); k++ {
-				kids = append(kids, level[g.pick(len(level))]) // repeats and sharing on purpose
+				if len(older) > 0 && g.pick(3) == 0 {
+					// a link that skips levels: the same block is then reachable at different depths,
+					// so a depth-limited or budgeted walk treats its visits differently
+					kids = append(kids, older[g.pick(len(older))])
+				} else {
+					kids = append(kids, level[g.pick(len(level))]) // repeats and sharing on purpose
+				}
 			}
 			n, err := qp.BuildMap(basicnode.Prototype.Any, -1, func(ma datamodel.MapAssembler) {
 				qp.MapEntry(ma, "a", qp.Link(kids[0]))
@@ -90,10 +97,62 @@ func (g *Gen) buildDag(depth int) *dag {
 			next = append(next, l)
 			d.all = append(d.all, l.(cidlink.Link).Cid)
 		}
+		older = append(older, level...)
 		level = next
 	}
 	d.root = level[0].(cidlink.Link).Cid
 	return d
+}
+
+// buildSkewDag: R -a-> A1 -a-> ... -a-> S -a-> X, and R.b = [S]: the shared node S is met first at
+// the end of a long path and again directly under the root, so a depth limit (or a link budget)
+// cuts its children off on the first visit but not on the second.
+func (g *Gen) buildSkewDag() (*dag, int) {
+	d := &dag{store: &memstore.Store{}}
+	d.ls = cidlink.DefaultLinkSystem()
+	d.ls.SetWriteStorage(d.store)
+	d.ls.SetReadStorage(d.store)
+	inner := d.ls.StorageReadOpener
+	d.ls.StorageReadOpener = func(lc linking.LinkContext, l datamodel.Link) (io.Reader, error) {
+		d.loads = append(d.loads, l.(cidlink.Link).Cid)
+		return inner(lc, l)
+	}
+	rawLP := cidlink.LinkPrototype{Prefix: cid.Prefix{Version: 1, Codec: cid.Raw, MhType: 0x12, MhLength: 32}}
+	cborLP := cidlink.LinkPrototype{Prefix: cid.Prefix{Version: 1, Codec: cid.DagCBOR, MhType: 0x12, MhLength: 32}}
+	put := func(lp cidlink.LinkPrototype, n datamodel.Node) datamodel.Link {
+		l, err := d.ls.Store(linking.LinkContext{}, lp, n)
+		if err != nil {
+			panic(err)
+		}
+		d.all = append(d.all, l.(cidlink.Link).Cid)
+		return l
+	}
+	mk := func(a datamodel.Link, b []datamodel.Link) datamodel.Link {
+		n, err := qp.BuildMap(basicnode.Prototype.Any, -1, func(ma datamodel.MapAssembler) {
+			qp.MapEntry(ma, "a", qp.Link(a))
+			qp.MapEntry(ma, "b", qp.List(-1, func(la datamodel.ListAssembler) {
+				for _, k := range b {
+					qp.ListEntry(la, qp.Link(k))
+				}
+			}))
+			qp.MapEntry(ma, "v", qp.Int(int64(g.pick(1000))))
+		})
+		if err != nil {
+			panic(err)
+		}
+		return put(cborLP, n)
+	}
+	x := put(rawLP, basicnode.NewBytes(g.bytes(1+g.pick(30))))
+	x2 := put(rawLP, basicnode.NewBytes(g.bytes(1+g.pick(30))))
+	sNode := mk(x, []datamodel.Link{x2})
+	chain := 1 + g.pick(3)
+	top := sNode
+	for i := 0; i < chain; i++ {
+		top = mk(top, nil)
+	}
+	root := mk(top, []datamodel.Link{sNode})
+	d.root = root.(cidlink.Link).Cid
+	return d, chain
 }
 
 func (d *dag) blocksArg() string {
@@ -142,6 +201,15 @@ func famC15(g *Gen, o *Out, n int, thorough bool) {
 		d := g.buildDag(1 + g.pick(3))
 		sel, selName := g.selectorFor(g.pick(3))
 		dup := g.pick(3) == 0
+		if g.pick(4) == 0 {
+			var chain int
+			d, chain = g.buildSkewDag()
+			dep := int64(chain + 1 + g.pick(3))
+			ssb := sb.NewSelectorSpecBuilder(basicnode.Prototype.Any)
+			sel = ssb.ExploreRecursive(selector.RecursionLimitDepth(dep), ssb.ExploreAll(ssb.ExploreRecursiveEdge())).Node()
+			selName = fmt.Sprintf("depth%d", dep)
+			dup = g.pick(2) == 0
+		}
 		dp := []uint64{0, 0, 5, 64}[g.pick(4)]
 		ip := []uint64{0, 0, 9}[g.pick(3)]
 		idx := []string{"mh", "sorted", "none"}[g.pick(3)]
